@@ -1312,12 +1312,14 @@ Definition c06_vdescs_rank (backward : bool) (ni w : nat) (sizes : list (list na
                                  (c06_recv_list backward e'))
          end) (c06_entries_of p es).
 
-Lemma P_init_is_var_cfg : forall backward fixnew buf ni w np sizes es c,
-  c06_init true backward fixnew buf ni w np sizes es = Some c ->
-  exists ds, c = mkC buf fixnew (map (fun d => c06_link_init_var buf (v_src d) (v_dst d) (v_entries d) (v_ridx d)) ds) (repeat false np) /\
-    c06_spec_case backward ni w np sizes es = Some (map (fun d => (v_src d, v_dst d, c06_spec_link (v_entries d) (v_ridx d))) ds).
+Definition c06_vdescs backward ni w np sizes es := c06_all_some (flat_map (c06_vdescs_rank backward ni w sizes es) (seq 0 np)).
+
+Lemma init_var_eq : forall backward fixnew buf ni w np sizes es,
+  c06_init true backward fixnew buf ni w np sizes es =
+  option_map (fun ds => mkC buf fixnew (map (fun d => c06_link_init_var buf (v_src d) (v_dst d) (v_entries d) (v_ridx d)) ds) (repeat false np))
+             (c06_vdescs backward ni w np sizes es).
 Proof.
-  intros backward fixnew buf ni w np sizes es c H. unfold c06_init in H.
+  intros. unfold c06_init, c06_vdescs.
   assert (L : forall p, c06_links_of_rank true backward buf ni w sizes es p =
                         map (option_map (fun d => c06_link_init_var buf (v_src d) (v_dst d) (v_entries d) (v_ridx d)))
                             (c06_vdescs_rank backward ni w sizes es p)).
@@ -1325,13 +1327,28 @@ Proof.
     rewrite <- (map_combine_fst _ _ _ (fun e : c06_entry => option_map _ match c06_find_entry (e_q e) p es with None => None | Some e' => Some _ end)
                   (c06_entries_of p es) (c06_fixed_sizes backward sizes 1 (c06_entries_of p es))) by (rewrite fixed_sizes_len; reflexivity).
     apply map_ext. intros [e f]. simpl. destruct (c06_find_entry (e_q e) p es); reflexivity. }
+  rewrite (flat_map_ext _ _ L). rewrite flat_map_map_inner, all_some_map.
+  destruct (c06_all_some (flat_map (c06_vdescs_rank backward ni w sizes es) (seq 0 np))); reflexivity.
+Qed.
+
+Lemma spec_case_eq : forall backward ni w np sizes es,
+  c06_spec_case backward ni w np sizes es =
+  option_map (map (fun d => (v_src d, v_dst d, c06_spec_link (v_entries d) (v_ridx d)))) (c06_vdescs backward ni w np sizes es).
+Proof.
+  intros. unfold c06_spec_case, c06_vdescs.
   assert (S : forall p, c06_spec_rank backward ni w sizes es p =
                         map (option_map (fun d => (v_src d, v_dst d, c06_spec_link (v_entries d) (v_ridx d))))
                             (c06_vdescs_rank backward ni w sizes es p)).
   { intros p. unfold c06_spec_rank, c06_vdescs_rank. rewrite map_map. apply map_ext. intros e.
     destruct (c06_find_entry (e_q e) p es); reflexivity. }
-  rewrite (flat_map_ext _ _ L) in H. rewrite flat_map_map_inner, all_some_map in H.
-  unfold c06_spec_case. rewrite (flat_map_ext _ _ S). rewrite flat_map_map_inner, all_some_map.
-  destruct (c06_all_some (flat_map (c06_vdescs_rank backward ni w sizes es) (seq 0 np))) as [ds|]; [|discriminate].
-  simpl in *. inversion H; subst. exists ds. split; reflexivity.
+  rewrite (flat_map_ext _ _ S). rewrite flat_map_map_inner, all_some_map. reflexivity.
+Qed.
+
+Lemma P_init_is_var_cfg : forall backward fixnew buf ni w np sizes es c,
+  c06_init true backward fixnew buf ni w np sizes es = Some c ->
+  exists ds, c = mkC buf fixnew (map (fun d => c06_link_init_var buf (v_src d) (v_dst d) (v_entries d) (v_ridx d)) ds) (repeat false np) /\
+    c06_spec_case backward ni w np sizes es = Some (map (fun d => (v_src d, v_dst d, c06_spec_link (v_entries d) (v_ridx d))) ds).
+Proof.
+  intros backward fixnew buf ni w np sizes es c H. rewrite init_var_eq in H. rewrite spec_case_eq.
+  destruct (c06_vdescs backward ni w np sizes es) as [ds|]; [|discriminate]. simpl in *. inversion H; subst. exists ds. split; reflexivity.
 Qed.
